@@ -137,7 +137,9 @@ def run(ctx):
         except Unknown as x:
             ctx.need(False, "cannot fold the column type tables: {}".format(x))
         # the cross-module import-time update (already shown idempotent by C10.crossmod) is applied too
+        # — whether it has run depends on what the process imported, so the table is checked in both states
         foreign = index.module("cdd.compound.openapi.utils.emit_utils")
+        t2c_owner = dict(t2c)
         for s in foreign.tree.body:
             if isinstance(s, ast.Expr) and isinstance(s.value, ast.Call) and norm(s.value.func).endswith("typ2column_type.update"):
                 try:
@@ -148,20 +150,24 @@ def run(ctx):
                     ctx.need(False, "cannot fold the foreign table update: {}".format(x))
         ctx.count("table_entries_folded", len(t2c) + len(c2t))
         emod = index.module("cdd.sqlalchemy.utils.parse_utils")
-        for t in DOMAIN:
-            col = t2c.get(t)
-            back = c2t.get(col) if isinstance(col, str) else None
-            ok = back == t
-            ctx.ob(
-                "C05.tables",
-                emod,
-                "{} -> {} -> {}".format(t, col, back),
-                ok,
-                ""
-                if ok
-                else "a column of type {!r} is emitted as {} and parsed back as {!r}: the type does not round-trip".format(t, col, back),
-                line=1,
-            )
+        states = [("", t2c_owner)] + ([(" (after cdd.compound.openapi.utils.emit_utils was imported)", t2c)] if t2c != t2c_owner else [])
+        for label, table in states:
+            for t in DOMAIN:
+                col = table.get(t)
+                if label and col == t2c_owner.get(t):
+                    continue  # same entry as in the owner's own table: judged there
+                back = c2t.get(col) if isinstance(col, str) else None
+                ok = back == t
+                ctx.ob(
+                    "C05.tables",
+                    emod,
+                    "{} -> {} -> {}{}".format(t, col, back, label),
+                    ok,
+                    ""
+                    if ok
+                    else "a column of type {!r} is emitted as {} and parsed back as {!r}{}: the type does not round-trip".format(t, col, back, label),
+                    line=1,
+                )
 
     ctx.section(_sec_tables)
 
